@@ -255,10 +255,213 @@ func checkC14(c *Ctx) *core.Result {
 		}
 	}
 
+	// ---- A4: the look-up chain of the word lexer is an exact match
+	{
+		pins := map[ssa.Value]interface{}{}
+		for _, ci := range ssax.Calls(word) {
+			if ci.Common().StaticCallee() != lookup {
+				continue
+			}
+			for i, arg := range ci.Common().Args {
+				if k, ok := ssax.ConstInt(arg); ok && i < len(lookup.Params) && isIntType(lookup.Params[i].Type()) {
+					if old, dup := pins[lookup.Params[i]]; dup && old != interface{}(k) {
+						delete(pins, lookup.Params[i])
+						continue
+					}
+					pins[lookup.Params[i]] = k
+				}
+			}
+		}
+		seen := map[*ssa.Function]bool{}
+		exactMatchRule(p, r, lookup, pins, 0, seen)
+		if !seen[search] {
+			exactMatchRule(p, r, search, nil, 0, seen)
+		}
+	}
+
 	r.Extra["a1_candidates"] = count
 	r.Extra["fold_blocks"] = map[string]int{"reachable_under_{n,1}": nReach, "unreachable": nDead}
-	r.Explanation = "A1 (E2, exhaustive): none of the 62 strings 0+{N,1}^{1..5} is an 'F' key of the keyword table. A2 (abstract guard evaluation of fold and of the pass function: every load of a token class yields the set {0,n,1}, strOpen/strClose {0}; helper predicates are evaluated the same way; the phrase look-up in merge misses by the family's definition): no reachable instruction rewrites a class, copies a token, bumps the fold counter or decrements pos/left — i.e. no folding rule fires on bareword/number streams, so the fingerprint is the class string of the first ≤5 tokens, which A1 shows is not black-listed. A3 (E2 dispatch evaluation): letters, '_', 0x80–0xFF except 0xA0 dispatch to the word lexer or to a lexer that falls back to it; digits dispatch to the number lexer; the word lexer only assigns bareword or a keyword-table value. NOT decided: the exact class of every word (needs lexing); the e-mail / decimal / sentence shapes."
+	r.Explanation = "A1 (E2, exhaustive): none of the 62 strings 0+{N,1}^{1..5} is an 'F' key of the keyword table. A2 (abstract guard evaluation of fold and of the pass function: every load of a token class yields the set {0,n,1}, strOpen/strClose {0}; helper predicates are evaluated the same way; the phrase look-up in merge misses by the family's definition): no reachable instruction rewrites a class, copies a token, bumps the fold counter or decrements pos/left — i.e. no folding rule fires on bareword/number streams, so the fingerprint is the class string of the first ≤5 tokens, which A1 shows is not black-listed. A3 (E2 dispatch evaluation): letters, '_', 0x80–0xFF except 0xA0 dispatch to the word lexer or to a lexer that falls back to it; digits dispatch to the number lexer; the word lexer only assigns bareword or a keyword-table value. A4: the look-up chain used by the word lexer (mode parameter pinned to the constant it passes) returns only 0, the next look-up of the chain on the same word, a string-keyed map look-up keyed by a string function of the word, or a value guarded by a string equality on the word — a table value is never handed out on a hash or cache slot alone. NOT decided: the exact class of every word (needs lexing); the e-mail / decimal / sentence shapes."
 	r.Trusted = []string{"go/ssa", "abstract guard evaluation (finite byte sets, three-valued bools)", "go/types constants of the table literal", "closed-initialiser evaluation of the dispatch table"}
 	r.Assumptions = []string{"family definition: no word or adjacent word pair is (a component of) a keyword-table key"}
 	return r
+}
+
+// ---- A4: a keyword-table value is handed out only on an exact match of the word
+//
+// The word lexer classifies a word by the value its look-up returns; "not a
+// keyword" therefore rests on the look-up comparing the word itself with the
+// table key.  exactMatchRule walks the look-up chain (the look-up with its
+// mode parameter pinned to what the word lexer passes, then the search
+// function): every value a return can yield is the constant 0, the result of
+// the next function of the chain on the same word, a string-keyed map look-up
+// whose key is derived from the word, or a value returned under a string
+// equality that involves the word.  Anything else (a hash-keyed table, a memo
+// slot decided by a hash alone) is reported.
+func exactMatchRule(p *core.Program, r *core.Result, fn *ssa.Function, pins map[ssa.Value]interface{}, depth int, seen map[*ssa.Function]bool) {
+	if fn == nil || seen[fn] || depth > 3 {
+		return
+	}
+	seen[fn] = true
+	qn := core.QualName(fn)
+	var word *ssa.Parameter
+	for _, prm := range fn.Params {
+		if isStringType(prm.Type()) {
+			if word != nil {
+				r.Fail("A4", qn, "word parameter", p.Pos(fn.Pos()), "the look-up has more than one string parameter: which one is the word is undecided")
+				return
+			}
+			word = prm
+		}
+	}
+	if word == nil {
+		r.Fail("A4", qn, "word parameter", p.Pos(fn.Pos()), "the look-up has no string parameter (undecided)")
+		return
+	}
+	var derived func(v ssa.Value, d int) bool
+	derived = func(v ssa.Value, d int) bool {
+		if d > 8 || v == nil {
+			return false
+		}
+		switch x := v.(type) {
+		case *ssa.Parameter:
+			return x == word
+		case *ssa.Const:
+			return true
+		case *ssa.Slice:
+			return derived(x.X, d+1)
+		case *ssa.ChangeType:
+			return derived(x.X, d+1)
+		case *ssa.Convert:
+			return derived(x.X, d+1)
+		case *ssa.Phi:
+			for _, e := range x.Edges {
+				if !derived(e, d+1) {
+					return false
+				}
+			}
+			return true
+		case *ssa.Call:
+			// a string function of the word (ToUpper, TrimSpace, a module helper …)
+			if !isStringType(x.Type()) {
+				return false
+			}
+			usesWord := false
+			for _, arg := range x.Common().Args {
+				if !isStringType(arg.Type()) {
+					continue
+				}
+				if !derived(arg, d+1) {
+					return false
+				}
+				if _, isC := arg.(*ssa.Const); !isC {
+					usesWord = true
+				}
+			}
+			return usesWord
+		}
+		return false
+	}
+	nonConst := func(v ssa.Value) bool { _, c := v.(*ssa.Const); return !c }
+	// a string equality on the word that holds at block b
+	eqFact := func(b *ssa.BasicBlock) bool {
+		for _, f := range ssax.Facts(b) {
+			switch c := f.Cond.(type) {
+			case *ssa.BinOp:
+				if !isStringType(c.X.Type()) {
+					// strings.Compare(a, b) == 0
+					if call, ok := c.X.(*ssa.Call); ok && c.Op == token.EQL && f.True {
+						if cf := call.Common().StaticCallee(); cf != nil && cf.Pkg != nil && cf.Pkg.Pkg.Path() == "strings" && cf.Name() == "Compare" {
+							if z, ok := ssax.ConstInt(c.Y); ok && z == 0 {
+								a0, a1 := call.Common().Args[0], call.Common().Args[1]
+								if (derived(a0, 0) && nonConst(a0)) || (derived(a1, 0) && nonConst(a1)) {
+									return true
+								}
+							}
+						}
+					}
+					continue
+				}
+				if (c.Op == token.EQL && f.True) || (c.Op == token.NEQ && !f.True) {
+					if (derived(c.X, 0) && nonConst(c.X)) || (derived(c.Y, 0) && nonConst(c.Y)) {
+						return true
+					}
+				}
+			case *ssa.Call:
+				if cf := c.Common().StaticCallee(); cf != nil && f.True && cf.Pkg != nil && cf.Pkg.Pkg.Path() == "strings" && cf.Name() == "EqualFold" {
+					a0, a1 := c.Common().Args[0], c.Common().Args[1]
+					if (derived(a0, 0) && nonConst(a0)) || (derived(a1, 0) && nonConst(a1)) {
+						return true
+					}
+				}
+			}
+		}
+		return false
+	}
+	sc := ssax.RunSCCPPinned(fn, pins, p.Pkg.TypesSizes)
+	n := 0
+	for _, ret := range ssax.Returns(fn) {
+		if !sc.ExecBlock[ret.Block()] || len(ret.Results) == 0 {
+			continue
+		}
+		var leaves []ssa.Value
+		leavesOf(ret.Results[0], map[ssa.Value]bool{}, &leaves)
+		for _, lf := range leaves {
+			n++
+			expr := "returned value " + ssax.Canon(lf) + " at " + retLabel(ret)
+			if ins, ok := lf.(ssa.Instruction); ok && ins.Block() != nil && !sc.ExecBlock[ins.Block()] {
+				continue
+			}
+			if k, ok := sc.ValueOf(lf); ok {
+				if iv, isInt := k.(int64); isInt && iv == 0 {
+					r.OK("A4", qn, expr, p.Pos(ret.Pos()), "no class")
+					continue
+				}
+				if _, isConst := lf.(*ssa.Const); isConst {
+					r.Fail("A4", qn, expr, p.Pos(ret.Pos()), "the look-up used by the word lexer hands out a constant class whatever the word is")
+					continue
+				}
+			}
+			switch x := lf.(type) {
+			case *ssa.Call:
+				callee := x.Common().StaticCallee()
+				okArg := false
+				for _, arg := range x.Common().Args {
+					if isStringType(arg.Type()) && derived(arg, 0) && nonConst(arg) {
+						okArg = true
+					}
+				}
+				if callee != nil && p.InModule(callee) && okArg {
+					r.OK("A4", qn, expr, p.Pos(ret.Pos()), "delegated to "+callee.Name()+" on the same word")
+					exactMatchRule(p, r, callee, nil, depth+1, seen)
+					continue
+				}
+			case *ssa.Extract:
+				if lk, ok := x.Tuple.(*ssa.Lookup); ok && x.Index == 0 {
+					if mt, ok := lk.X.Type().Underlying().(*types.Map); ok && isStringType(mt.Key()) && derived(lk.Index, 0) && nonConst(lk.Index) {
+						r.OK("A4", qn, expr, p.Pos(ret.Pos()), "string-keyed map look-up of the word")
+						continue
+					}
+				}
+			case *ssa.Lookup:
+				if mt, ok := x.X.Type().Underlying().(*types.Map); ok && isStringType(mt.Key()) && derived(x.Index, 0) && nonConst(x.Index) {
+					r.OK("A4", qn, expr, p.Pos(ret.Pos()), "string-keyed map look-up of the word")
+					continue
+				}
+			}
+			// any other table value: only under a string equality on the word
+			good := eqFact(ret.Block())
+			if ins, ok := lf.(ssa.Instruction); ok && !good && ins.Block() != nil {
+				good = eqFact(ins.Block())
+			}
+			if good {
+				r.OK("A4", qn, expr, p.Pos(ret.Pos()), "returned under a string equality on the word")
+			} else {
+				r.Fail("A4", qn, expr, p.Pos(ret.Pos()), "a class is handed out without comparing the word itself with a table key (hash, cache slot or positional match): a plain word can inherit a keyword's class")
+			}
+		}
+	}
+	if n == 0 {
+		r.Fail("vacuity", qn, "A4 returned values", p.Pos(fn.Pos()), "no returned value analysed")
+	}
 }
